@@ -38,6 +38,18 @@ CHECKS = {
    text="MC_Methods: TLC checks the algebraic laws of split/join, upper/lower, length, floor/ceil/round, pluck (fresh object, exact keys), num() over complete small domains and emits every case; each is replayed as a program and compared with the model's value; calls outside the contract must end ok or with a runtime error; seeded instantiation checks the laws on arbitrary UTF-8 strings and random doubles.",
    note="Trusts TLC and JqValue; non-ASCII case mapping, overlapping-separator decompositions, num() of a number are law-only or not compared.",
    tech="TLC-checked method laws over complete small domains, every case replayed on lang.EvalProgram"),
+ "C06": dict(cat="model_checking", ref="5 (C06), 3.9, 4.3",
+   text="JqParse.tla is the intended Pratt parser (precedence table of DESIGN 3.9); TLC enumerates every operator, all ordered pairs and triples of the 21 binary operators in every grouping, prefix/suffix placements, parenthesised overrides and sampled 4-operator sequences, checks the round-trip laws (parse(Render(t)) = t, parse(FullParen(t)) = t, no removable parenthesis), and emits each tree; each is replayed on the real parser (S-expression hook: tree conformance) and evaluator (hook-free: print of the minimal text vs the fully parenthesised text with discriminating operands).",
+   note="Trusts TLC and the 3.9 table; ++/-- ranking, layout and 4+ operator sequences beyond the sample are not claimed.",
+   tech="TLA+ Pratt-parser model; TLC-enumerated trees replayed on the real parser (tree hook) and evaluator (differential)"),
+ "C18": dict(cat="model_checking", ref="5 (C18), 4.11",
+   text="JqPrintf.tla is the format scanner as a transition system (one action per branch of nativePrintf) with an independent declarative reference formatter; TLC explores every format of <= 4/5 bytes over a 9-symbol alphabet x the arguments the scanner examines, checking WriteOnce, PadLaw, agreement with the reference, in every state; every finished call is replayed on the real code with exact stdout bytes (or runtime error and nothing written).",
+   note="Three points the statement leaves open (width on %v and %%, zero flag with negative width) are policy bits: one reading must explain all outputs of a run.",
+   tech="TLA+ transition system of the format scanner, TLC BFS, every behaviour replayed"),
+ "C19": dict(cat="model_checking", ref="5 (C19), 4.7",
+   text="JqMatch.tla is the executable match semantics (pattern / alternatives / case loop) with declarative laws (first matching case, markers of later cases never fire, bindings reconstruct the subject); TLC enumerates case lists in three tiers x 10 subjects; every case list is replayed with side-effect markers, comparing value, marker trace and outcome, plus frame balance after block bodies.",
+   note="Container subject against a non-null literal is open (three readings); patterns other than literal / identifier / array are outside.",
+   tech="executable TLA+ match semantics with laws, TLC enumeration, replay with markers"),
 }
 ALL = ["C%02d" % i for i in range(1, 21)]
 hooks_commits = subprocess.run(["git","-C","/repo","log","--format=%H %s"],capture_output=True,text=True).stdout.splitlines()
